@@ -10,11 +10,12 @@ int_t in_colptr[CAP+1], in_rowind[NZ], in_perm_r[CAP], in_perm_c[CAP], in_info; 
 void h_gsrfs_wiring(void) {
   in_A.Store = &in_Astore; in_Astore.nzval = in_Aval; in_Astore.rowind = in_rowind; in_Astore.colptr = in_colptr;
   in_L.Store = &in_Lstore; in_U.Store = &in_Ustore; in_B.Store = &in_Bstore; in_Bstore.nzval = in_Bval; in_X.Store = &in_Xstore; in_Xstore.nzval = in_Xval;
+  in_trans = TRANS_FIX;   /* variant parameter: the transpose option is a constant of each run (symex drops the other branch of every notran test) */
   @p@gsrfs(in_trans, &in_A, &in_L, &in_U, in_perm_r, in_perm_c, in_equed, in_R, in_C, &in_B, &in_X, in_ferr, in_berr, &in_Gstat, &in_info);
   __CPROVER_assert(0, "canary: gsrfs returns");
-  if (g_col == 2 && in_trans == NOTRANS) __CPROVER_assert(0, "canary: two right-hand sides, no transpose");
-  if (g_col == 2 && in_trans == TRANS && in_equed == BOTH) __CPROVER_assert(0, "canary: two right-hand sides, transpose, both scalings");
-  if (g_col >= 1 && in_trans == CONJ && in_equed == ROW) __CPROVER_assert(0, "canary: conjugate transpose, row scaling");
+  if (g_col == 2 && in_equed == NOEQUIL) __CPROVER_assert(0, "canary: two right-hand sides, no scaling");
+  if (g_col == 2 && in_equed == BOTH) __CPROVER_assert(0, "canary: two right-hand sides, both scalings");
+  if (g_col >= 1 && in_equed == ROW && g_gstrs_calls >= 3) __CPROVER_assert(0, "canary: row scaling, three solves");
   if (g_max_corr == 5) __CPROVER_assert(0, "canary: five corrections for one column");
   if (g_col == 2 && g_gstrs_calls == 0) __CPROVER_assert(0, "canary: no correction, estimator stops at once");
   if (g_col == 1 && g_lacon_calls == MAXROUNDS + 1) __CPROVER_assert(0, "canary: estimator uses all its rounds");
